@@ -245,9 +245,8 @@ package frame
 //@   callsite state.EncryptionSession.Check sequence-checked-after-authentication [C03]: aead_ok
 //@   callsite state.TimeSequenceHandler.Check sequence-checked-after-authentication [C03]: sig_ok
 //@   ensures ttl-flags-restored [C02,C10]: len(f.data) == old(len(f.data)) && f.data[1] == old(f.data[1]) && f.data[2] == old(f.data[2])
-// (The next clause FAILS on the current code: EncryptionSession.In rolls the incoming key over on the claimed,
-// not yet authenticated sequence number, after which genuine frames of the sender no longer unseal - see
-// /verif/KNOWN_FINDINGS.txt, "key rollover before authentication".)
+// (A frame that is refused must not desynchronise the session: this failed before the rollover was made
+// transactional - see /verif/KNOWN_FINDINGS.txt, "key rollover before authentication", fixed.)
 //@   ensures unauthenticated-frames-never-move-the-receive-key [C02]: !aead_ok && old(s.encryption) != nil ==> old(s.encryption).inEpoch == old(s.encryption.inEpoch)
 
 // Every byte of the sealed part (below the appendix) other than TTL and flow flags is input to the primitive:
